@@ -3,7 +3,7 @@ ID = "C05"
 PROP = {
     "coq_targets": ["Properties/C05.vo", "Extract/ExUrl.vo"],
     "driver": {"model": "url_model.ml", "src": "drv_url.ml", "exe": "url_driver"},
-    "bin": "urlhist",
+    "bin": "c05",
     "harness_args": ["C05"],
     "profiles": ["dev"],
     "rule": "streams: corpus of histories; exhaustive (every start URL of a 43-URL pool x every operation kind x every argument of an 85-string delimiter-rich pool, one step each); random histories of 1-8 mutating calls (Url::set_*, set_ip_host, path_segments_mut sessions, quirks setters) from pool or randomly generated parsed URLs. After steps the model and the implementation are compared on the whole record (serialization, 7 offsets, host kind, port) and status, the read accessors and the quirks getters. Non-trivial = every step/observation (each has a non-empty URL); distinct = distinct request lines. In search mode (after a proof or the correspondence broke) the byte/delimiter statement of C05 (harness/src/urlprops.rs prop_c05) is evaluated on the implementation.",
